@@ -2,6 +2,8 @@
 (* Generator of abstract C14 histories: a prefix out of Setups, then up to    *)
 (* MaxCmds commands of the command space, then up to MaxItems traffic/stream  *)
 (* items.  Exhaustive (BFS) for short histories, -simulate for long ones.     *)
+(* SetupMode "routed" + CmdMode "names" + ItemMode "rule": a connected route,  *)
+(* a rule that makes degenerate metric names, traffic that rule matches.       *)
 (* Every complete history is printed as one JSON line.                        *)
 EXTENDS AdminOps, Json, TLC
 
